@@ -305,6 +305,9 @@ def check(run):
     run_cases(run, worker, cases)
     from props import C09_sym
     guarded(run, C09_sym.prove, dts=(-0.0625j, -0.25j), key="C10")
+    # imaginary-time branch of TDVP-PS / PS2: the local problems are those of the integrator for exp(-tau H) (the sign conventions differ per local solver)
+    from props import C09_tdvp_sym
+    guarded(run, C09_tdvp_sym.prove, dts=(complex(0, -0.25), complex(0, -0.0625)), key="C10")
     run.rule = ("(a) imaginary-time branch of the 8 schemes x solvers x |H|tau in {0.1,0.5} vs normalised expm(-tau H)psi; (b) exact_propagator for Holstein models "
                 "(1-2 molecules, distinct and degenerate mode frequencies with different displacements, 1-2 modes per molecule, schemes 2 and 4, spaces GS/EX, real/imaginary/complex x, shift 0 and 0.37) vs dense expm; Mps/MpDm.evolve_exact with zero and non-zero "
                 "offset incl. frame; (c) ThermalProp from max_entangled_ex/gs for beta over two decades, 3-5 schemes: energy, electronic and phonon occupations vs dense "
